@@ -4,6 +4,7 @@ import CogentModel.Proofs.Splitlines
 /-! Helper lemmas for C06: writers followed by parsers. -/
 namespace CogentModel.SeqFormats
 open CogentModel.Splitlines CogentModel.SeqSpec
+variable {cfg : Cfg}
 
 instance exceptDecEq {ε α : Type} [DecidableEq ε] [DecidableEq α] : DecidableEq (Except ε α)
   | .ok a, .ok b => if h : a = b then isTrue (by rw [h]) else isFalse (by intro e; cases e; exact h rfl)
@@ -172,17 +173,17 @@ theorem isLabel_seq {lc : List Char} {w : Str} (h : wfSeq lc w = true) : isLabel
 
 
 theorem strictGo_cons (lc : List Char) (label : Option Str) (seq : List Str) (line : Str) (rest : List Str) :
-    strictGo lc label seq (line :: rest) =
-    if line.isEmpty || line.head? = some '#' then strictGo lc label seq rest
+    strictGo cfg lc label seq (line :: rest) =
+    if line.isEmpty || (line.head? = some '#' && !(cfg.gdeHashLabel && lc.contains '#')) then strictGo cfg lc label seq rest
     else if isLabel lc line then
       match label with
       | some l =>
         if seq.isEmpty then .error .recordError
-        else (strictGo lc (some (strip (line.drop 1))) [] rest).map (fun rs => (l, clean seq) :: rs)
+        else (strictGo cfg lc (some (strip (line.drop 1))) [] rest).map (fun rs => (l, clean seq) :: rs)
       | none =>
         if !seq.isEmpty then .error .recordError
-        else strictGo lc (some (strip (line.drop 1))) [] rest
-    else strictGo lc label (seq ++ [strip line]) rest := by
+        else strictGo cfg lc (some (strip (line.drop 1))) [] rest
+    else strictGo cfg lc label (seq ++ [strip line]) rest := by
   rfl
 
 theorem fasterGo_cons (lc : List Char) (label : Option Str) (seq : List Str) (line : Str) (rest : List Str) :
@@ -195,7 +196,7 @@ theorem fasterGo_cons (lc : List Char) (label : Option Str) (seq : List Str) (li
   rfl
 
 theorem strictGo_seqLines {lc : List Char} (label : Option Str) : ∀ (ws : List Str) (seq rest : List Str),
-    (∀ w ∈ ws, wfSeq lc w = true) → strictGo lc label seq (ws ++ rest) = strictGo lc label (seq ++ ws) rest
+    (∀ w ∈ ws, wfSeq lc w = true) → strictGo cfg lc label seq (ws ++ rest) = strictGo cfg lc label (seq ++ ws) rest
   | [], seq, rest, _ => by simp
   | w :: ws, seq, rest, h => by
     have hw := h w List.mem_cons_self
@@ -240,7 +241,7 @@ def expected (recs : List (Str × List Str)) : List Rec := recs.map (fun r => (r
 theorem strictGo_recs {lc : List Char} {l0 : Char} (hl0 : lc.contains l0 = true) (hh : l0 ≠ '#') :
     ∀ (recs : List (Str × List Str)) (label : Str) (seq : List Str), WfRecs lc recs → seq ≠ [] →
     (∀ w ∈ seq, wfSeq lc w = true) →
-    strictGo lc (some label) seq (recLines l0 recs) = .ok ((label, seq.flatten) :: expected recs)
+    strictGo cfg lc (some label) seq (recLines l0 recs) = .ok ((label, seq.flatten) :: expected recs)
   | [], label, seq, _, hs, hw => by
     have : seq.isEmpty = false := by cases seq <;> simp at hs ⊢
     simp [recLines, strictGo, this, expected, clean_wf hw]
@@ -261,13 +262,13 @@ theorem strictGo_recs {lc : List Char} {l0 : Char} (hl0 : lc.contains l0 = true)
 
 theorem strictParser_recs {lc : List Char} {l0 : Char} (hl0 : lc.contains l0 = true) (hh : l0 ≠ '#')
     (recs : List (Str × List Str)) (hne : recs ≠ []) (hwf : WfRecs lc recs) :
-    strictParser lc (recLines l0 recs) = .ok (expected recs) := by
+    strictParser cfg lc (recLines l0 recs) = .ok (expected recs) := by
   cases recs with
   | nil => exact absurd rfl hne
   | cons r recs =>
     have hr := hwf r List.mem_cons_self
     obtain ⟨hne', hws⟩ := wfLines_iff hr.2
-    have ih := strictGo_recs hl0 hh recs r.1 r.2 (fun x hx => hwf x (List.mem_cons_of_mem _ hx)) hne' hws
+    have ih := strictGo_recs (cfg := cfg) hl0 hh recs r.1 r.2 (fun x hx => hwf x (List.mem_cons_of_mem _ hx)) hne' hws
     unfold strictParser
     simp only [recLines, List.flatMap_cons, List.cons_append] at ih ⊢
     rw [strictGo_cons]
@@ -412,39 +413,8 @@ theorem recLines_noBreak {lc : List Char} {l0 : Char} (hl0 : printable l0 = true
 
 /-! ### the bytes based FASTA parser -/
 
-theorem splitOnC_ne_nil (d : Char) : ∀ (s : Str), splitOnC d s ≠ []
-  | [] => by simp [splitOnC]
-  | c :: cs => by
-    simp only [splitOnC]
-    split
-    · simp
-    · exact consHead_ne_nil _ _
-
-theorem splitOnC_none {d : Char} : ∀ {a : Str}, d ∉ a → splitOnC d a = [a]
-  | [], _ => rfl
-  | c :: cs, h => by
-    have hc : ¬ (c = d) := fun e => h (by subst e; exact List.mem_cons_self)
-    have := splitOnC_none (a := cs) (fun hm => h (List.mem_cons_of_mem _ hm))
-    simp [splitOnC, hc, this, consHead]
-
-theorem splitOnC_sep {d : Char} : ∀ {a : Str} (b : Str), d ∉ a → splitOnC d (a ++ d :: b) = a :: splitOnC d b
-  | [], b, _ => by simp [splitOnC]
-  | c :: cs, b, h => by
-    have hc : ¬ (c = d) := fun e => h (by subst e; exact List.mem_cons_self)
-    have := splitOnC_sep (a := cs) b (fun hm => h (List.mem_cons_of_mem _ hm))
-    simp [splitOnC, hc, this, consHead]
-
 /-- the part of a record's text after its `>` -/
 def recBody (r : Str × List Str) : Str := r.1 ++ '\n' :: unlines r.2
-
-theorem splitOnC_bodies (d : Char) : ∀ (recs : List (Str × List Str)) (r : Str × List Str),
-    (∀ x ∈ r :: recs, d ∉ recBody x) →
-    splitOnC d (recBody r ++ recs.flatMap (fun x => d :: recBody x)) = recBody r :: recs.map recBody
-  | [], r, h => by simpa using splitOnC_none (h r List.mem_cons_self)
-  | r' :: recs, r, h => by
-    have ih := splitOnC_bodies d recs r' (fun x hx => h x (List.mem_cons_of_mem _ hx))
-    simp only [List.flatMap_cons, List.cons_append, List.map_cons]
-    rw [splitOnC_sep _ (h r List.mem_cons_self), ih]
 
 theorem takeWhile_nl {n : Str} (h : '\n' ∉ n) (x : Str) :
     (n ++ '\n' :: x).takeWhile (· ≠ '\n') = n ∧ (n ++ '\n' :: x).dropWhile (· ≠ '\n') = '\n' :: x := by
@@ -523,52 +493,7 @@ theorem bytesRecord_body {r : Str × List Str} (hn : wfName r.1 = true) (hw : wf
   simp only [List.drop_one, List.tail_cons]
   rw [convertBytes_unlines (wfLines_iff hw).2 hl]
 
-theorem gt_not_in_body {r : Str × List Str} (hn : '>' ∉ r.1) (hw : wfLines ['>'] r.2 = true) :
-    '>' ∉ recBody r := by
-  unfold recBody
-  intro hm
-  rcases List.mem_append.mp hm with h | h
-  · exact hn h
-  · rcases List.mem_cons.mp h with h | h
-    · exact absurd h (by decide)
-    · simp only [unlines, List.mem_flatMap, List.mem_append, List.mem_singleton] at h
-      obtain ⟨w, hw', hc | hc⟩ := h
-      · have := seqChar_not_label ((wfSeq_chars ((wfLines_iff hw).2 w hw')).2 _ hc)
-        simp at this
-      · exact absurd hc (by decide)
-
-theorem fastaBytes_recs (recs : List (Str × List Str)) (hwf : WfRecs ['>'] recs)
-    (hgt : ∀ r ∈ recs, '>' ∉ r.1) (hlow : ∀ r ∈ recs, noLower r.2.flatten = true) :
-    fastaBytes (unlines (recLines '>' recs)) = expected recs := by
-  rw [unlines_recLines]
-  cases recs with
-  | nil => simp [fastaBytes, splitOnC, bytesRecord, expected]
-  | cons r rs =>
-    have hb : ∀ x ∈ r :: rs, '>' ∉ recBody x := fun x hx => gt_not_in_body (hgt x hx) (hwf x hx).2
-    have := splitOnC_bodies '>' rs r hb
-    unfold recBody at this
-    unfold fastaBytes
-    simp only [List.flatMap_cons, List.cons_append, splitOnC, if_true]
-    rw [this]
-    have hnone : bytesRecord [] = none := by simp [bytesRecord]
-    simp only [List.filterMap_cons, hnone]
-    have hall : ∀ (xs : List (Str × List Str)), (∀ x ∈ xs, x ∈ r :: rs) →
-        (xs.map recBody).filterMap bytesRecord = expected xs := by
-      intro xs
-      induction xs with
-      | nil => intro _; simp [expected]
-      | cons x xs ih =>
-        intro hx
-        have hx1 := hx x List.mem_cons_self
-        have := bytesRecord_body (hwf x hx1).1 (hwf x hx1).2 (hlow x hx1)
-        simp only [List.map_cons, List.filterMap_cons, this, expected]
-        rw [ih (fun y hy => hx y (List.mem_cons_of_mem _ hy))]
-        simp [expected]
-    have h2 := hall (r :: rs) (fun x hx => hx)
-    simp only [List.map_cons, List.filterMap_cons] at h2
-    exact h2
-
-/-! ### the repaired bytes based parser (split at line starts only) -/
+/-! ### the record splitter of the bytes based parser (split at line starts only) -/
 
 /-- no `>` at a line start inside `s` -/
 def NoSplit : Bool → Str → Prop
@@ -663,22 +588,25 @@ theorem splitLabelStart_bodies : ∀ (recs : List (Str × List Str)) (r : Str ×
     simp only [List.flatMap_cons, List.cons_append, List.map_cons]
     rw [splitLabelStart_sep _ _ _ (h r List.mem_cons_self) (recBody_last r), ih]
 
-/-- the repaired bytes based parser returns every well-formed label verbatim — no `>` hypothesis -/
-theorem fastaBytesLS_recs (recs : List (Str × List Str)) (hwf : WfRecs ['>'] recs)
+theorem filterMap_pieces (cfg : Cfg) (ps : List Str) :
+    (if cfg.dropPreLabel = true then ([] :: ps).drop 1 else [] :: ps).filterMap bytesRecord = ps.filterMap bytesRecord := by
+  have hnone : bytesRecord [] = none := by simp [bytesRecord]
+  cases cfg.dropPreLabel <;> simp [hnone]
+
+/-- the bytes based parser returns every well-formed label verbatim — `>` inside a label included -/
+theorem fastaBytes_recs (recs : List (Str × List Str)) (hwf : WfRecs ['>'] recs)
     (hlow : ∀ r ∈ recs, noLower r.2.flatten = true) :
-    fastaBytesLS (unlines (recLines '>' recs)) = expected recs := by
+    fastaBytes cfg (unlines (recLines '>' recs)) = expected recs := by
   rw [unlines_recLines]
   cases recs with
-  | nil => simp [fastaBytesLS, splitLabelStart, bytesRecord, expected]
+  | nil => simp [fastaBytes, splitLabelStart, bytesRecord, expected]
   | cons r rs =>
     have hb : ∀ x ∈ r :: rs, NoSplit false (recBody x) := fun x hx => noSplit_body (hwf x hx).1 (hwf x hx).2
     have := splitLabelStart_bodies rs r hb
     unfold recBody at this
-    unfold fastaBytesLS
+    unfold fastaBytes
     simp only [List.flatMap_cons, List.cons_append, splitLabelStart, Bool.true_and, decide_true, if_true]
-    rw [this]
-    have hnone : bytesRecord [] = none := by simp [bytesRecord]
-    simp only [List.filterMap_cons, hnone]
+    rw [this, filterMap_pieces]
     have hall : ∀ (xs : List (Str × List Str)), (∀ x ∈ xs, x ∈ r :: rs) →
         (xs.map recBody).filterMap bytesRecord = expected xs := by
       intro xs
